@@ -256,6 +256,30 @@ theorem plus_dep_alias_reaches_import :
 theorem plus_dep_import_without_alias_breaks :
     (PyImport.mk "common" "").bound ≠ referenceModule .plusDep "common" "ad_common" := by decide
 
+/-! ## The module imported for a dependency file is the module the dependency ships -/
+
+/-- a proto-plus dependency file, whatever its name (keyword, control parameter, ordinary): the importing library and the dependency's own
+library put the name through the same renaming, so the import names the module that exists (`request.proto` -> `request_` in both) -/
+theorem plus_dep_imports_shipped_module (visited : List String) (n : String) :
+    importedDepModule visited n true = shippedDepModule visited n true := rfl
+
+/-- a plain `_pb2` dependency file with a valid, free module name: the import names protoc's module -/
+theorem pb2_dep_imports_shipped_module (visited : List String) (n : String)
+    (h1 : isInvalidModule n = false) (h2 : n ∉ visited) :
+    importedDepModule visited n false = shippedDepModule visited n false := by
+  simp [importedDepModule, shippedDepModule, file_name_kept visited (visited.length + 1) n h1 h2]
+
+example : isInvalidModule "common" = false ∧ "common" ∉ ([] : List String) := by decide
+
+/-- ... but named by a keyword or a control parameter it is renamed like an own file, and the import names a module protoc never writes
+(findings/C12.json, pb2-dependency-file-named-by-invalid-module-name:import) -/
+theorem pb2_dep_import_counterexample :
+    importedDepModule [] "metadata" false = "metadata__pb2" ∧ shippedDepModule [] "metadata" false = "metadata_pb2" ∧
+    importedDepModule [] "import" false = "import__pb2" ∧ shippedDepModule [] "import" false = "import_pb2" := by decide
+
+/-- were dependency files NOT renamed, the proto-plus dependency would be imported under a name its library does not ship -/
+theorem plus_dep_unrenamed_import_breaks : ("request" : String) ≠ shippedDepModule [] "request" true := by decide
+
 /-! ## `toSnakeCase` IS the code's current `to_snake_case` (translated by harness/pyfun2lean.py, re-bridged on every run) -/
 
 section Translated
@@ -329,6 +353,34 @@ theorem translated_alias_frees_the_name (m : Str) (c pk : List Str) (v : Str) (h
 theorem translated_alias_never_raises (m : Str) (c pk : List Str) (v : Str) : address_module_alias_ok m c pk v = true :=
   module_alias_never_raises m c pk v
 
+/-- **the clause "two imported modules that share a base name get a package-derived alias (each its own)" fails** on the current source:
+the sub-packages `admin` and `audit` of `acme.lib.v1` have the same initials, `common.proto` of both is imported `as ala_common`
+(findings/C12.json, `alias-collision:same-initials`; corpus/C12/alias_collision_same_initials.json is this input run for real) -/
+theorem translated_alias_not_injective_counterexample :
+    address_module_alias "common".toList ["common".toList] ["acme".toList, "lib".toList, "v1".toList, "admin".toList] "v1".toList =
+    address_module_alias "common".toList ["common".toList] ["acme".toList, "lib".toList, "v1".toList, "audit".toList] "v1".toList :=
+  alias_not_injective_counterexample
+
+/-- what does hold (`_partial`: "different packages ⇒ different aliases" is false, see the counterexample): two colliding modules of the
+same base name get different aliases exactly when the initials of their packages differ -/
+theorem translated_alias_distinct_iff_initials_partial (m : Str) (c1 c2 pk1 pk2 : List Str) (v : Str)
+    (h1 : (strIn m c1 || strIn m (Pinned.reservedNames.map String.toList)) = true)
+    (h2 : (strIn m c2 || strIn m (Pinned.reservedNames.map String.toList)) = true) :
+    address_module_alias m c1 pk1 v = address_module_alias m c2 pk2 v ↔ initials pk1 v = initials pk2 v :=
+  alias_distinct_iff_initials_partial m c1 c2 pk1 pk2 v h1 h2
+
+example : (strIn "common".toList ["common".toList] || strIn "common".toList (Pinned.reservedNames.map String.toList)) = true := by decide
+
+/-- **a proto-plus dependency type in a SUB-package of a versioned package is imported from a path its library does not have**:
+`convert_to_versioned_package` recognises the version only as the last segment (`acme.dep.v1.sub` stays as it is, `acme.dep.v1` becomes
+`acme.dep_v1`), while the dependency's own library is `acme/dep_v1/sub/types/…` (findings/C12.json, `proto-plus-dep:sub-package-of-versioned`;
+corpus/C12/proto_plus_dep_subpackage.json is this input run for real) -/
+theorem translated_versioned_package_subpackage_counterexample :
+    address_versioned_package ["acme".toList, "dep".toList, "v1".toList, "sub".toList]
+      = ["acme".toList, "dep".toList, "v1".toList, "sub".toList] ∧
+    address_versioned_package ["acme".toList, "dep".toList, "v1".toList] = ["acme".toList, "dep_v1".toList] :=
+  versioned_package_subpackage_counterexample
+
 /-- non-vacuity: a colliding dependency module gets its alias on the import and in the reference; a `_pb2` dependency does not -/
 example :
     let n : NamingV := ⟨true, "acme.lib.v1".toList, "v1".toList, ["acme".toList], "lib_v1".toList, ["acme.dep.v1".toList]⟩
@@ -339,5 +391,58 @@ example :
     str g = "timestamp_pb2.Timestamp".toList ∧ bound (pythonImport g) = "timestamp_pb2".toList := by decide
 
 end TranslatedAddress
+
+/-! ## The hand-written import model (Model/Names.lean) agrees with the translation of the current source (Model/AddressT.lean)
+
+`Names.pythonImport`, `PyImport.bound`, `isProtoPlus`, `referenceModule` were written by hand (round 8); the statements below tie them to
+`Pinned.Funcs.address_python_import / address_str` as composed in Model/AddressT.lean, under the correspondence `Names.kindOf`
+(which branch the address takes), module := `a.module`, alias := `moduleAlias a`. -/
+section HandVsTranslated
+open GapicModel.PyRt GapicModel.Pinned.Funcs
+
+/-- module and alias of the import -/
+theorem hand_python_import_is_translated (a : Model.AddressT.Addr) :
+    Model.Names.pythonImport (Model.Names.kindOf a) (String.ofList a.module) (String.ofList (Model.AddressT.moduleAlias a)) =
+      ⟨String.ofList (Model.AddressT.pythonImport a).module, String.ofList (Model.AddressT.pythonImport a).alias⟩ := by
+  unfold Model.Names.kindOf Model.AddressT.pythonImport address_python_import
+  by_cases ht : a.naming.truthy = true
+  · by_cases hs : startswith (Model.AddressT.protoPackage a) a.naming.protoPackage = true
+    · simp [ht, hs, Model.Names.pythonImport]
+    · by_cases hp : Model.AddressT.isProtoPlus a = true
+      · simp [ht, hs, hp, Model.Names.pythonImport]
+      · simp [ht, hs, hp, Model.Names.pythonImport]
+  · simp [ht, Model.Names.pythonImport]
+
+theorem hand_bound_is_translated (a : Model.AddressT.Addr) :
+    (Model.Names.pythonImport (Model.Names.kindOf a) (String.ofList a.module) (String.ofList (Model.AddressT.moduleAlias a))).bound =
+      String.ofList (Model.AddressT.bound (Model.AddressT.pythonImport a)) := by
+  rw [hand_python_import_is_translated]
+  unfold Model.Names.PyImport.bound Model.AddressT.bound
+  by_cases h : (Model.AddressT.pythonImport a).alias = []
+  · simp [h, truthy]
+  · have : truthy (Model.AddressT.pythonImport a).alias = true := (Lemmas.AddressT.truthy_iff_len _).mpr h
+    simp [h, this]
+
+theorem hand_is_proto_plus_is_translated (a : Model.AddressT.Addr) (hn : Lemmas.AddressT.NamingInv a.naming) :
+    Model.Names.isProtoPlus (Model.Names.kindOf a) = Model.AddressT.isProtoPlus a := by
+  unfold Model.Names.kindOf
+  by_cases ht : a.naming.truthy = true
+  · by_cases hs : startswith (Model.AddressT.protoPackage a) a.naming.protoPackage = true
+    · simp [ht, hs, Model.Names.isProtoPlus, Model.AddressT.isProtoPlus]
+    · by_cases hp : Model.AddressT.isProtoPlus a = true
+      · simp [ht, hs, hp, Model.Names.isProtoPlus]
+      · simp [ht, hs, hp, Model.Names.isProtoPlus]
+  · have ht' : a.naming.truthy = false := by simpa using ht
+    have := hn ht'
+    simp [ht', Model.Names.isProtoPlus, Model.AddressT.isProtoPlus, this, Lemmas.AddressT.startswith_nil]
+
+/-- the module part of a reference: `str a` starts with the hand model's `referenceModule` -/
+theorem hand_reference_module_is_translated (a : Model.AddressT.Addr) (hm : truthy a.module = true) (hn : Lemmas.AddressT.NamingInv a.naming) :
+    Model.AddressT.str a = join ['.'] ([(Model.Names.referenceModule (Model.Names.kindOf a) (String.ofList a.module)
+      (String.ofList (Model.AddressT.moduleAlias a))).toList] ++ a.parent ++ [a.name]) := by
+  rw [← import_binds_reference_name, hand_bound_is_translated, String.toList_ofList]
+  exact Lemmas.AddressT.import_binds_str_head a hm hn
+
+end HandVsTranslated
 
 end GapicModel.Props.C12
